@@ -240,7 +240,7 @@ pub fn spec(id: &str) -> Option<PropSpec> {
         "C16" => PropSpec {
             id: "C16",
             level: "exploration",
-            families: vec![(Family::C16X, 42), (Family::C16, 40), (Family::C11, 6), (Family::C06, 6), (Family::C04, 6)],
+            families: vec![(Family::C16X, 40), (Family::C16, 38), (Family::C11, 6), (Family::C06, 5), (Family::C04, 5), (Family::C12, 6)],
             quick_runs: 33_000,
             thorough_runs: 2_500_000,
             rule: "two families. (1) C16X, enumeration: the packet alphabet of a role (28 letters for MQTT 5, 23 for MQTT 3.1.1: QoS 1 / QoS 2 PUBLISH, PUBACK, PUBREC, PUBREL, PUBCOMP, SUBSCRIBE, SUBACK, UNSUBSCRIBE, UNSUBACK each with identifier 1 and 2; QoS 0 PUBLISH, PINGREQ, PINGRESP, a second CONNECT / CONNACK, DISCONNECT, and for MQTT 5 AUTH, DISCONNECT with a reason and a PUBLISH with a never-bound topic alias), EVERY sequence of length 1, 2 and 3 over it, in all four roles, against five application states (idle with immediate handlers; idle with gated handlers; an at-least-once and an exactly-once send outstanding and a silent peer; a streamed send, ready() and a subscribe / publish in progress with an acknowledging peer; the sequence sent instead of the handshake): 354,830 points, ordered so that the first 13,640 are all sequences of length <= 2; the quick tier executes those (complete for length <= 2), the thorough tier executes the whole enumeration several times, each execution under its own seeded schedule (fragmentation, placement of handler completions and acknowledgements). (2) C16, seeded: 1..8 well-formed packets drawn from 17 (v5) / 15 (v3) templates with ids {1,2,3} and payloads up to 300 bytes, optionally instead of the handshake, against idle or busy application state, plus the motif of a streamed publish right after a publish with the same id. Both end with a liveness probe (PINGREQ to servers, QoS 1 publish to clients); oracle: no panic anywhere (monitor applies to every family), connection either alive and answering the probe at final quiescence or ended with exactly one Stop to the control service and a completed connection task; a packet that can only be a protocol violation (an acknowledgement when the endpoint never sent anything, a MQTT 3.1.1 PUBLISH re-using the identifier of a publish whose handler is still running, a MQTT 5 PUBLISH with a never-bound alias) has ended the connection by the time the scripted part goes quiet, even with unrelated publish handlers still busy; distinct = distinct abstract history signature; non-trivial = every run",
